@@ -16,7 +16,7 @@ func checkC04(c *Ctx, r *Report) {
 		"is dominated by one arm of a comparison on a value with the same taint root; G2 every cycle of every data-driven loop passes an error test of the sticky-error reader or a bounded counter test; " +
 		"G6 io.ReadAll is applied only to an io.LimitReader; G3 a slice made in a function and indexed there by a loop counter is indexed below the length it was made with; G4 every constant index or constant slice bound on a slice is dominated by a test of its length, is on a slice long enough by construction, or rests on a named invariant of the decoded structure that is itself checked (appended at least once, field always stored with >= n bytes, two slices filled together, Type() non-empty); G8 an untrusted value used as an index is compared with the length of the slice first (or has too few bits to exceed a fixed table); G10 a loop cursor advanced by an untrusted length is wider than that length; G5 every integer division by a non-constant is dominated by a non-zero test of the divisor or rests on a checked invariant; G-NIL a field holding an optional child box (set only by AddChild when the child exists) is dereferenced only after a nil test of it (also: a fresh value stored to it, correlated tests, or — for fields of the receiver — a nil test at every repository call site); the result of a getter that can return nil (LastSegment, LastFragment, GetTrex, …) is dereferenced only after a nil test, except in File.AddChild where the checked invariant (startSegmentIfNeeded guarantees a segment, a fragment is added before it is used, an mdat follows a moof) stands; G-ASSERT an unchecked type assertion on a box stands under a test of the box type name for which every registered decoder returns exactly the asserted type, or on the result of a call that returns only that type; O-MDAT in a fragmented file the file decoders reject an mdat that does not directly follow a moof (the invariant File.AddChild relies on); O-ERR in the library packages every error returned by a callee is tested, returned, wrapped or merged on every path that does not itself end in an error (14 accepted explicit discards on freshly created boxes), so a decoder cannot hand back a structure after a callee failed; G-SIZE DecodeBoxSR compares the unsigned 64-bit box size itself with the remaining bytes before any decoder runs. Decides named necessary conditions of crash/hang/balloon freedom; does not decide index expressions with a computed index (other than G3 loop counters), nil dereferences other than of optional child fields, " +
 		"nor that a comparison's arithmetic is right."
-	r.Assume("taint is flow-insensitive on struct fields and does not flow through slice elements; a guard is any dominating comparison sharing a taint root (its direction and arithmetic are not checked)")
+	r.Assume("taint is flow-insensitive on struct fields and on the elements of slice-typed fields; arguments reach the parameters of static callees and, through the VTA call graph, of interface and function-value callees; for allocations and reading loops a guard is a dominating comparison that shares a taint root and, when the other side is untainted, bounds the tainted side from above on the way taken (its arithmetic is not checked)")
 	r.Assume("call graph = VTA over CHA; interface calls on readers are resolved by type name of package bits")
 	entries := entriesC04(c)
 	scope, _ := scopeFrom(c, entries)
